@@ -17,7 +17,7 @@ TECHNIQUE = ("the real JobExecutor.join, the processResults of the reward/task-e
              "worker results carrying symbolic payloads (metric values, boresight vectors, times, observe-or-miss bits); on every feasible path z3 proves the "
              "bookkeeping oracle over the symbolic payloads (unsat), so all completion orders and all tasking outcomes within the bounds are covered")
 FLOAT_SEMANTICS = "exact (payloads are opaque reals; only equality and comparisons matter)"
-ENCODED = [
+ENCODED = ["resonaate.parallel.tasking_execution:asyncExecuteTasking", 
     "resonaate.parallel:JobExecutor.enqueueJob", "resonaate.parallel:JobExecutor.join",
     "resonaate.parallel.tasking_execution:TaskExecutionRegistration.processResults",
     "resonaate.parallel.tasking_reward_generation:TaskingRewardRegistration.processResults",
@@ -424,4 +424,13 @@ def obligations(tier):
         obs.append(Ob(name, (lambda a: lambda rep: o_assess(rep, *a))((nT, nS, pol, steps)), f"assess() bookkeeping, {pol} {nT}x{nS}, {steps} step(s), all completion orders", 1500))
         REPLAYS[name] = replay_assess
     obs.append(Ob("propagate-merge", o_propagate_merge, "propagation results applied once to their own agent in any order", 300))
+    # the worker side of "exactly one record per tasked pair": the real asyncExecuteTasking body on symbolic sensor constraints
+    # (obligation shared with C02: oracle O2-exactly-one / O3-pointing over the worker's returned lists)
+    from harness import c02
+
+    for ob in c02.obligations(tier):
+        if ob.name.startswith("async-"):
+            obs.append(Ob("worker-" + ob.name, ob.fn, "worker result: exactly one observation-or-miss per tasked pair; " + ob.desc, ob.timeout_s))
+            if ob.name in c02.REPLAYS:
+                REPLAYS["worker-" + ob.name] = c02.REPLAYS[ob.name]
     return obs
